@@ -1,6 +1,7 @@
 From Coq Require Import String.
-Require Import OV.Base.Bytes OV.Base.Py OV.Base.PyInt OV.Base.Str OV.Base.IO OV.Base.C15_PyVal.
-Require Import OV.Gen.C15_Netutils OV.Model.C15.
+Require Import OV.Base.Bytes OV.Base.Py OV.Base.PyInt OV.Base.Str OV.Base.IO.
+Require Import OV.Base.C11_Lib OV.Model.C11.
+Require Import OV.Base.C15_PyVal OV.Gen.C15_Netutils OV.Model.C15 OV.Model.C15_Text.
 From Coq Require Extraction ExtrOcamlBasic.
 
 (* canonical text of a str: S<cp>.<cp>...  (unambiguous whatever the characters are) *)
@@ -36,6 +37,13 @@ Fixpoint pairs_of (l : list bytes) : list (str * str) :=
 Definition out_pval (v : pval) : bytes :=
   match v with One s => show_str s | Many l => lit "[" ++ join [44%N] (map show_str l) ++ lit "]" end.
 
+Definition out_aexn (e : aexn) : bytes :=
+  match e with
+  | AValueError => lit "EXN:ValueError" | ATypeError => lit "EXN:TypeError"
+  | AAddrFormatError => lit "EXN:AddrFormatError" | AOSError => lit "EXN:OSError" | AOther => lit "EXN:OtherError"
+  end.
+Definition out_vv (r : res (Z * Z)) : bytes := out_res (fun r => out_Z (fst r) ++ sp ++ out_Z (snd r)) r.
+
 Definition run (args : list bytes) : bytes :=
   let op := nth_arg args 0 in
   let a := nth_arg args in
@@ -43,6 +51,28 @@ Definition run (args : list bytes) : bytes :=
     out_res (fun r => out_Z (fst r) ++ sp ++ out_Z (snd r))
       (get_ipv6_addr_by_EUI64 (arg_bool (a 1%nat)) (arg_bool (a 2%nat)) (arg_bool (a 3%nat))
          (mac_of_args (a 4%nat) (a 5%nat)) (net_of_args (a 6%nat) (a 7%nat)))
+  else if is_op "euitext" op then
+    (* prefix mactag mac *)
+    out_vv (get_ipv6_addr_by_EUI64_gen (a 1%nat)
+              (if is_op "I" (a 2%nat) then eui_of_pyint (arg_Z (a 3%nat)) else mac_lres (a 3%nat)))
+  else if is_op "euiparse" op then
+    match eui_of_text (a 1%nat) with
+    | Some (EUI48 v) => lit "48 " ++ out_Z v
+    | Some (EUI64 v) => lit "64 " ++ out_Z v
+    | None => lit "EXN:AddrFormatError"
+    end
+  else if is_op "net" op then
+    match ipnetwork_v (a 1%nat) with
+    | Net v6 value plen => (if v6 then lit "6 " else lit "4 ") ++ out_N value ++ sp ++ out_N plen ++ sp ++ out_N (net_first v6 value plen)
+    | NetRaise e => out_aexn e
+    end
+  else if is_op "mactext" op then out_opt show_str (get_mac_text (arg_Z (a 1%nat)))
+  else if is_op "hosttext" op then
+    (* host port dtag dval *)
+    let esc := escape_ipv6_text (a 1%nat) in
+    show_str esc ++ sp ++
+    out_hp (parse_host_port (esc ++ [58%N] ++ out_Z (arg_Z (a 2%nat))) VNone) ++ sp ++
+    out_hp (parse_host_port esc (pyval_of_args (a 3%nat) (a 4%nat)))
   else if is_op "mac" op then out_eui (get_mac_addr_by_ipv6 (arg_Z (a 1%nat)) (arg_Z (a 2%nat)))
   else if is_op "parse" op then out_hp (parse_host_port (a 1%nat) (pyval_of_args (a 2%nat) (a 3%nat)))
   else if is_op "hostport" op then
